@@ -77,8 +77,11 @@ def scale (a : Bounds α) (c : α) : Bounds α :=
   else if Arith.gt c zero then ⟨mul a.lower c, mul a.upper c⟩
   else ⟨mul a.upper c, mul a.lower c⟩
 
+/-- `div_by` (fix 6650688): the endpoints are divided; scaling by `1.0 / d` overflowed for a subnormal `d`. -/
 def divBy (a : Bounds α) (d : α) : Bounds α :=
-  if Arith.eq d zero then unbounded else a.scale (div one d)
+  if Arith.eq d zero then unbounded
+  else if Arith.gt d zero then ⟨div a.lower d, div a.upper d⟩
+  else ⟨div a.upper d, div a.lower d⟩
 
 def abs (a : Bounds α) : Bounds α :=
   if ge a.lower zero then a
@@ -162,12 +165,16 @@ def fromExp : Exp α → Option (AffineForm α)
   | .un .not _ => none
   | _ => none
 
+/-- `from_constraint`; since fix 48f25ce a form whose constant or some coefficient is not finite is rejected
+(an overflowed coefficient cannot be divided back: `1.0 / inf == 0.0` pinned the variable to `[0, 0]`). -/
 def fromConstraint (c : Constraint α) : Option (AffineForm α) :=
   match fromExp c.lhs with
   | none => none
   | some fl => match fromExp c.rhs with
     | none => none
-    | some fr => some (fl.merge fr (Arith.neg one))
+    | some fr =>
+      let f := fl.merge fr (Arith.neg one)
+      if !(isFinite f.constant) || f.coefficients.any (fun p => !(isFinite p.2)) then none else some f
 end AffineForm
 
 /-! ### `collect_variables` -/
@@ -327,7 +334,8 @@ def tightenConstraintExpression (c : Constraint α) (required : Bounds α) (s : 
   let current := lb.sub rb
   match current.intersection required s.an.tolerance with
   | none => ⟨s.an.markInfeasible, s.changed⟩
-  | some required =>
+  | some _ =>
+    -- fix 4e5bd4b: the reverse step uses the comparison's own interval, not its intersection with `lhs - rhs`
     tightenExpression c.rhs (lb.sub required) (tightenExpression c.lhs (required.add rb) s)
 
 /-- `suffixes[i]` for the term list starting at `i`: `t_i + (t_{i+1} + (… + [0,0]))`. -/
